@@ -191,6 +191,7 @@ macro_rules! dispatch {
         match $name {
             "hierarchy" | "C04" => $f(worlds::hierarchy::Hierarchy $(, $arg)*),
             "authz" | "C01" => $f(worlds::authz::Authz $(, $arg)*),
+            "policyset" | "C08" => $f(worlds::policyset::PolicySetWorld $(, $arg)*),
             "batched" | "C15" => $f(worlds::batched::Batched $(, $arg)*),
             other => harness_error(&format!("unknown world/property {other}")),
         }
@@ -249,6 +250,7 @@ fn main() {
             println!("hierarchy");
             println!("batched");
             println!("authz");
+            println!("policyset");
             0
         }
         "digest" => {
